@@ -211,7 +211,7 @@ def key_provenance(ctx):
                 ctx.ok(c, fn, created=log["created"])
 
 
-@rule("C08.symbolic-operand-order", props=["C08", "C02"], min_instances=5, mutants=[
+@rule("C08.symbolic-operand-order", props=["C08", "C02", "C03", "C04", "C05", "C06", "C07"], min_instances=5, mutants=[
     ("symbolic operands always canonical", ("multivector", "            keys = algebra.indices_for_grades[grades] if not keys else keys\n            values = list(symbolcls", "            keys = tuple(k for k in algebra.indices_for_grades[grades] if not keys or k in keys)\n            values = list(symbolcls")),
 ])
 def symbolic_operand_order(ctx):
@@ -280,7 +280,7 @@ def run_do_codegen(repo, res_kind, cse):
     return out, captured, x, y
 
 
-@rule("C08.codegen-pipeline", props=["C08", "C02", "C06", "C13"], min_instances=5, mutants=[
+@rule("C08.codegen-pipeline", props=["C08", "C02", "C06", "C13", "C11"], min_instances=5, mutants=[
     ("expressions reversed against keys", ("codegen", "    keys, exprs = tuple(res.keys()), list(res.values())", "    keys, exprs = tuple(res.keys()), list(reversed(list(res.values())))")),
     ("argument values of the operands swapped", ("codegen", "args = {arg_name: arg.values() for arg_name, arg in zip(string.ascii_uppercase, mvs)}", "args = {arg_name: arg.values() for arg_name, arg in zip(string.ascii_uppercase, reversed(mvs))}")),
     ("canonical re-sort drops the scalar", ("codegen", "for canon, bin in algebra.canon2bin.items() if bin in res.keys()}", "for canon, bin in algebra.canon2bin.items() if bin and bin in res.keys()}")),
@@ -434,6 +434,11 @@ def emitted_structure(src: str):
                 and isinstance(st.value, ast.Name):
             info["unpack"][st.value.id] = [un(e) for e in st.targets[0].elts]
             info["order"].append(("unpack", st.value.id))
+        elif isinstance(st, ast.Assign) and len(st.targets) == 1 and isinstance(st.targets[0], ast.Name) \
+                and isinstance(st.value, ast.Name) and st.value.id in info["params"] and st.value.id not in info["unpack"]:
+            # `a = A` is not an unpacking: the name is bound to the whole sequence of coefficients
+            info["unpack"][st.value.id] = f"<{st.targets[0].id} bound to the whole sequence {st.value.id}, nothing unpacked>"
+            info["order"].append(("unpack", st.value.id))
         elif isinstance(st, ast.Assign) and len(st.targets) == 1 and isinstance(st.targets[0], ast.Name):
             info["assigns"].append((st.targets[0].id, un(st.value)))
             info["order"].append(("assign", st.targets[0].id))
@@ -503,9 +508,10 @@ def check_source(ctx, c, fn, src, funcname, operand_names, exprs, deps):
         ctx.ok(c, fn, emitted=src)
 
 
-@rule("C08.emitted-source", props=["C08", "C02", "C13", "C12"], min_instances=9, mutants=[
+@rule("C08.emitted-source", props=["C08", "C02", "C13", "C12", "C11"], min_instances=9, mutants=[
     ("one zero expression zeroes the whole result", ("codegen", "    if not any(_exprs):", "    if not all(_exprs):")),
     ("func_builder unpacks sorted names", ("codegen", "            body += f'    [{\", \".join(str(v) for v in mv.values())}] = {arg}\\n'", "            body += f'    [{\", \".join(sorted(str(v) for v in mv.values()))}] = {arg}\\n'")),
+    ("func_builder unpacks without the list brackets (a single name is bound to the whole sequence)", ("codegen", "            body += f'    [{\", \".join(str(v) for v in mv.values())}] = {arg}\\n'", "            body += f'    {\", \".join(str(v) for v in mv.values())} = {arg}\\n'")),
     ("func_builder pairs operands with reversed parameters", ("codegen", "        for mv, arg in zip(mvs, args):", "        for mv, arg in zip(mvs, reversed(args)):")),
     ("lambdify slices exprs/dependencies wrongly after cse", ("codegen", "_exprs, _rhsides = _all_exprs[:-len(rhsides)], _all_exprs[len(exprs):]", "_exprs, _rhsides = _all_exprs[:len(rhsides)], _all_exprs[len(exprs):]")),
     ("printer emits dependencies after the return value is built", ("codegen", "        funcbody.extend(unpackings)\n\n        for s, e in cses:", "        for s, e in ():")),
@@ -523,13 +529,16 @@ def emitted_source(ctx):
     # func_builder
     q = "codegen.func_builder"
     fn = ctx.func(q)
-    for label, res in (("two operands", {0: "a1*b+a3*b2", 4: "-a123*b2", 3: "a1*b2"}), ("empty result", {})):
+    x1 = mv_obj(alg, (4,), [tok("a3")])
+    for label, res in (("two operands", {0: "a1*b+a3*b2", 4: "-a123*b2", 3: "a1*b2"}), ("empty result", {}),
+                       ("single-blade operand", {6: "a3*b2", 4: "a3*b"})):
         c = f"{q}#{label}"
         it = make_interp(repo)
         sources = []
         capture_stubs(it, sources)
+        single = label == "single-blade operand"
         try:
-            out = it.run(q, [dict(res), x, y], {"funcname": "gp_1_x_2"})
+            out = it.run(q, [dict(res), x1 if single else x, y], {"funcname": "gp_1_x_2"})
         except NoValue as exc:
             raise Unknown(c, str(exc), fn)
         if out[0] == "raise" or not sources:
@@ -541,7 +550,7 @@ def emitted_source(ctx):
             continue
         import ast as _ast
         want_exprs = [_ast.unparse(_ast.parse(e, mode="eval").body) for e in res.values()]
-        check_source(ctx, c, fn, sources[-1], "gp_1_x_2", [["a3", "a1", "a123"], ["b2", "b"]] if res else [[], []],
+        check_source(ctx, c, fn, sources[-1], "gp_1_x_2", ([["a3"], ["b2", "b"]] if single else [["a3", "a1", "a123"], ["b2", "b"]]) if res else [[], []],
                      want_exprs, [])
     # lambdify + KingdonPrinter
     q = "codegen.lambdify"
@@ -581,6 +590,20 @@ def emitted_source(ctx):
             ctx.violation(c, f"lambdify {out[0]} {out[1]!r} without emitting source", fn)
             continue
         check_source(ctx, c, fn, sources[-1], "call_7", [["a3", "a1", "a123"]], want, [])
+    # an operand that stores one coefficient is still unpacked (a one-element pattern, not a plain name)
+    for cse in (False, True):
+        c = f"{q}#single-blade operand,cse={cse}"
+        it = make_interp(repo)
+        sources = []
+        capture_stubs(it, sources)
+        try:
+            out = it.run(q, [{"A": [tok("a3")], "B": list(yv)}, [tok("E0"), tok("E4")]], {"funcname": "gp_4", "cse": cse})
+        except NoValue as exc:
+            raise Unknown(c, str(exc), fn)
+        if out[0] == "raise" or not sources:
+            ctx.violation(c, f"lambdify {out[0]} {out[1]!r} without emitting source", fn)
+            continue
+        check_source(ctx, c, fn, sources[-1], "gp_4", [["a3"], ["b2", "b"]], ["E0", "E4"], [])
     # string expressions with dependencies (the sqrt path)
     c = f"{q}#string-exprs"
     it = make_interp(repo)
